@@ -1,30 +1,29 @@
 use hlverif::gen::*;
-use hlverif::engine::*;
-use hlverif::interp::Opts;
+use hlverif::props::*;
+use hlverif::engine::RunResult;
+use hlverif::case::ConcCase;
 use std::time::Instant;
 fn main() {
-	let cfg = hlverif::props::seq_cfg_general();
-	let mut bytes = vec![0u8; 220];
-	let mut x: u32 = 12345;
-	let n = 3000;
-	let mut cases = Vec::new();
-	let t = Instant::now();
-	for _ in 0..n {
-		for b in bytes.iter_mut() { x = x.wrapping_mul(1664525).wrapping_add(1013904223); *b = (x >> 24) as u8; }
-		cases.push(gen_seq(&mut Src::new(&bytes), &cfg));
+	let tcfg = tiny_conc_cfg();
+	let nontrivial = |_c: &ConcCase, r: &RunResult| r.waited;
+	let e = ConcEval { prop: "C01", nontrivial: &nontrivial, extra: None };
+	let mut x: u64 = 88172645463325252;
+	let mut worst: Vec<(f64, u64, String)> = Vec::new();
+	let t_all = Instant::now();
+	let mut total_runs = 0u64;
+	for i in 0..600 {
+		let len = (x % 120) as usize;
+		let mut bytes = vec![0u8; len];
+		for b in bytes.iter_mut() { x ^= x << 13; x ^= x >> 7; x ^= x << 17; *b = (x >> 24) as u8; }
+		x ^= x << 13; x ^= x >> 7; x ^= x << 17;
+		let case = gen_conc(&mut Src::new(&bytes), &tcfg);
+		let t = Instant::now();
+		let rep = exhaust_program(&e, &case, 3000, false);
+		let dt = t.elapsed().as_secs_f64();
+		total_runs += rep.extra_evals + 1;
+		if dt > 0.5 { println!("program {i}: {:.2}s runs={} labels={:?}", dt, rep.extra_evals + 1, rep.labels); worst.push((dt, rep.extra_evals, format!("{:?}", case.programs))); }
 	}
-	println!("gen: {:?} per case", t.elapsed() / n);
-	let t = Instant::now();
-	let mut ops = 0;
-	for c in &cases { let r = run_seq(c, Opts::default()); ops += r.raw_ops; }
-	println!("run: {:?} per case, {} raw ops", t.elapsed() / n, ops);
-	let t = Instant::now();
-	for c in &cases { let _ = hlverif::world::Sem::new(&c.world); }
-	println!("sem: {:?} per case", t.elapsed() / n);
-	let t = Instant::now();
-	for c in &cases { let w = hlverif::world::World::build(&c.world); drop(w); }
-	println!("build: {:?} per case", t.elapsed() / n);
-	let t = Instant::now();
-	for c in &cases { let _ = format!("{c:?}"); }
-	println!("fmt: {:?} per case", t.elapsed() / n);
+	println!("sequential: {} runs in {:.1}s", total_runs, t_all.elapsed().as_secs_f64());
+	worst.sort_by(|a, b| b.0.partial_cmp(&a.0).unwrap());
+	for w in worst.iter().take(3) { println!("{:.2}s runs={} {}", w.0, w.1, &w.2[..w.2.len().min(600)]); }
 }
